@@ -19,19 +19,42 @@ from tools.props import decl_common as dc
 LEVEL = "proof"
 MANIFEST = dict(
     category="proof",
-    text="Lean 4 theorem over a model of declast.Parser (declaration_specifier, declarator, pointer, parameter_list, "
-         "array dimensions via ExprParser, attribute, initializer, decl_statement) and of the unparsers: re-parsing the "
-         "token list of Shroud's own gen_decl rendering of a well-formed declaration without default values yields the "
-         "same declaration, attributes included, for declarations of unbounded depth (partial domain: no template "
-         "arguments/qualified names, simple array dimensions). Model tied to declast.py/todict.py on every run by "
-         "differential correspondence through the compiled Lean driver; agreement with a C++ compiler is NOT proved: an "
-         "implementation-only oracle compares decltype(original) with decltype(rendering) using g++ static_assert.",
+    text="Lean 4 theorems over a model of declast.Parser (declaration_specifier incl. canonical_typemap and names resolved through "
+         "the symbol environment, declarator, pointer, parameter_list, array dimensions via ExprParser, attribute, initializer, "
+         "decl_statement) and of the unparsers gen_decl / gen_arg_as_cxx / gen_arg_as_c / as_cast / str, for declarations of "
+         "unbounded depth: (3) roundtrip_partial: parse(tokens(gen_decl d)) = ok d on the domain WF (no default values, template "
+         "arguments or qualified names; array dimensions a constant or identifier; rendered attributes; distinct parameter "
+         "names); (1) denote_toks / denote_toks_param / parse_agrees_with_cxx_partial: an independent reference semantics "
+         "cxxMeaning written from the C++ declarator grammar reads Shroud's own rendering as the name and the type denote(d) "
+         "that Shroud records, on WF + RP, under the hypothesis BaseAgrees (typemap of a built-in specifier multiset = the "
+         "standard's type, checked exhaustively through the driver and against g++ on every run); (2) "
+         "denote_argToks_cxx_object_partial / denote_argToks_c_object_partial: the same for the gen_arg_as_cxx and gen_arg_as_c "
+         "token renderings of OBJECT declarations (pointer/reference/array chains with cv at every level), the C one with "
+         "references turned into pointers (toC). The model is tied to declast.py/todict.py on every run by differential "
+         "correspondence through the compiled Lean driver (outcome class, diagnostic text, structure, five renderings, token-"
+         "level renderings; default and nested-namespace environments); implementation-only oracles: real-parser round trip "
+         "(also after the generate phase, comparing attribute values), g++ is_same of decltype(original) vs the rendering and "
+         "vs cxxMeaning, gcc type compatibility of the C rendering.",
     design="3 C09",
-    note="Trusted: Lean kernel; hand-written model Model/Decl.lean validated on generated inputs only (grammar-directed, "
-         "single-token mutations, random token sequences); regex tokenisation and Python number formatting are run by the "
-         "harness, not modelled; clauses (1),(2) (C++ reference semantics) are oracle-only (g++ 12), sampled.",
-    technique="Lean 4 proof by induction over the declaration (printer/parser round trip) + differential correspondence "
-              "model/implementation + g++ is_same oracle",
+    note="Trusted: Lean kernel (axioms propext, Classical.choice, Quot.sound); the hand-written models Model/Decl.lean, Token.lean, "
+         "CxxMeaning.lean, validated on generated inputs only (corpus, 981 systematic parameter-list shapes, 672 qualified names "
+         "over a nested environment, grammar-directed declarations, single-token mutations, random token sequences); cxxMeaning "
+         "as a rendering of ISO C++ for this declarator subset (validated against g++ 12 on every run); Python number formatting "
+         "run by the harness. _partial / not proved: function-declarator case of the argToks theorems, arbitrary accepted token "
+         "lists for clause (1) (only canonical renderings), general [expr] dimensions, qualified/templated types in WF. Open "
+         "findings: RENDERING LIMITATIONS (documented normalisations of the round trip, no disagreement with C++): "
+         "roundtrip:attr-eq-value (+a=1 rendered +a(1)), roundtrip:attr-not-rendered (names starting with _ / template), "
+         "roundtrip:nested-template-argument (str() of a template argument), roundtrip:expr-right-nested and "
+         "roundtrip:expr-signed-operand (PrintNode parenthesisation), roundtrip:single-void-param ((void +attr) becomes ()); "
+         "ACCEPTED NON-C++ INPUT / SEMANTIC DISAGREEMENT with C++: roundtrip:empty-declarator, roundtrip:abstract-function and "
+         "meaning:abstract-function-parens (`int ()`, `T *()`, `int *(int)`: the parser always reads '(' after the pointer "
+         "operators as a nested declarator; a repair needs two tokens of look-ahead in a generator-based tokenizer, not "
+         "contained). Also open: gxx:/meaning:/roundtrip:name-is-a-type, now only for a PARENTHESISED declarator named like a type "
+         "(`vector<int> (string)`), same root cause. Fixed in this wave: name-is-a-type for plain declarators (c918081) and "
+         "typename-plus-specifier (462fc2a), the two other "
+         "semantic disagreements.",
+    technique="Lean 4 proof by induction over the declaration (printer/parser round trip; printer-side induction for the reference "
+              "semantics) + differential correspondence model/implementation + g++/gcc oracles",
 )
 MODULES = ["ShroudVerif.Props.C09"]
 THEOREMS = {
@@ -757,17 +780,22 @@ def run(ctx):
     r = common.rng("c09")
     ctx.cov["trusted_base"] = [
         "Lean 4.33.0 kernel; axioms within {propext, Classical.choice, Quot.sound}",
-        "hand-written model Model/Decl.lean + Model/Token.lean, tied by differential correspondence (drv_decl)",
-        "Gen/DeclTables.lean regenerated from typemap.initialize(), canonical_typemap and the default library symbols",
-        "regex tokenisation (token_specification) and Python int()/float()/str() run by the harness, not modelled",
-        "g++/gcc 12 as the C++/C reference for the is_same oracle",
+        "hand-written models Model/Decl.lean, Token.lean, CxxMeaning.lean, tied by differential correspondence (drv_decl)",
+        "Gen/DeclTables.lean regenerated from typemap.initialize(), canonical_typemap, token_specification and the library symbols "
+        "(default and nested-namespace environment)",
+        "tokenisation of the test inputs by the real regex (the character-level tokenizer model belongs to C17); Python "
+        "int()/float()/str() run by the harness, not modelled",
+        "g++/gcc 12 as the C++/C reference for the is_same oracles; cxxMeaning as a rendering of ISO C++ for this subset",
+        "hypothesis BaseAgrees of the meaning theorems: checked exhaustively by the driver op `fund` and against g++, not proved",
     ]
     ctx.cov["rule"] = ("corpus + grammar-directed declarations (depth-bounded) + single-token mutations + random token sequences; "
                        "exact comparison of outcome class, diagnostic, structure and five renderings; non-trivial = distinct accepted "
                        "structures and distinct diagnostics")
     ctx.assumptions += [
         "the round-trip theorem is about the Lean model on its WF domain; the model is validated against declast.py on generated inputs only",
-        "agreement with a C++ compiler (clauses 1,2) is checked on sampled declarations with g++, not proved",
+        "clauses (1),(2) are proved for Shroud's own renderings (canonical token lists); for arbitrary accepted inputs agreement "
+        "with C++ is checked with g++ and by comparing cxxMeaning with denote(parse) on the generated inputs, not proved",
+        "the argToks theorems cover object declarations; function declarators of the prototype renderings are oracle-only",
         "parser namespace is a C++ library (global scope); class scope (constructors/destructors) and class/enum/struct/template statements are not modelled",
     ]
     depth = 4 if thorough else 3
